@@ -259,7 +259,8 @@ Definition search (s : st) (h : Z) (ignore : bool) : sres * st :=
    (buffered or handed to the OS, the model does not distinguish: every prefix is allowed).
    keep >= the unsynced length is a clean stop. *)
 Definition crash (s : st) (keep : Z) : st :=
-  let h := firstn (Z.to_nat (synced s + Z.max 0 keep)) (head s ++ buf s) in
+  let all := head s ++ buf s in
+  let h := firstn (Z.to_nat (Z.min (synced s + Z.max 0 keep) (len all))) all in
   set_disk s (files s) h (len h) [].
 
 (* OpenGroup (minIndex/maxIndex from the directory) + BaseWAL.OnStart (an empty head gets
